@@ -228,6 +228,7 @@ func replyIOSource(s string) bool {
 func (c *Ctx) defensiveOnCallbackStore(f *ssa.Function, r *ssa.Return) bool {
 	commit := c.commitFuncs()
 	for _, bf := range branchFacts(f) {
+		curEnv = bf.A.Env
 		if bf.A.Kind != "nil" || !bf.Holds {
 			continue
 		}
